@@ -6,6 +6,7 @@ import (
 	"fmt"
 	"math/rand"
 	"os"
+	"time"
 )
 
 // CallIndex lets the runner map a diverging trace line back to an execution.
@@ -72,10 +73,13 @@ func cmdRecord(args []string) int {
 		for c := 0; c < *calls; c++ {
 			_, b := GenDoc(rng, sess.Model, kindList[rng.Intn(len(kindList))])
 			first := tw.Lines + 1
+			t0 := time.Now()
 			cr := tw.Sanitize(sess, b)
+			dur := time.Since(t0)
 			res.Execs++
 			res.Cases++
 			x := NewExec(recipe, sess.Model, sess.Real, b, cr.Output, cr.Rec)
+			x.Dur = dur
 			if cr.Rec.Panic != "" {
 				res.diverge("panic %s on %q", cr.Rec.Panic, b)
 			}
